@@ -130,18 +130,25 @@ LrA  == IF Full THEN {Q(1, 8), Q(1, 4), Half, One} ELSE {Q(1, 4)}          \* ac
 LrC  == IF Full THEN {Half, One} ELSE {One}                                \* critic optimiser: SGD(lr)
 RowSet == {[r |-> QAdd(a, v), v |-> v, ent |-> e] : a \in AdvE, v \in ValE, e \in EntE}
 ParSet == [lra : LrA, lrc : LrC, K : KSet]
+(* 32-bit rationals: the denominators of the critic's predictions grow by the factor N / lr_c with every epoch *)
+RECURSIVE QPow(_, _)
+QPow(q, m) == IF m <= 0 THEN One ELSE QMul(q, QPow(q, m - 1))
+Representable(nn, p) == QLe(QPow(QDiv(I(nn), p.lrc), p.K - 1), I(16))
 
 Idx == 1..n
 Tup(f) == SubSeq(f, 1, n)          \* TLC evaluates [i \in S |-> e] lazily on every application; SubSeq forces it once
 Entry(i) == A!PPORow(rows[i])                     \* advantage r - v and return (r - v) + v from the ENTRY critic
 Adv(i) == Entry(i).adv
 Ret(i) == Entry(i).ret
+(* the entropy parameter of every sample of the batch rises by lr * 0.01 / N per epoch (gradient of the bonus -0.01 mean entropy), so the *)
+(* objective of epoch k + 1 is lower by k * 0.01 * EntStep than with the entry entropies (kept as a separate term: 32-bit rationals)       *)
+EntStep == QMul(par.lra, QDiv(A!EntCoef, I(n)))
 
 ----------------------------------------------------------------------------
 Init == /\ stage = "par" /\ n = 0 /\ par = <<>> /\ rows = <<>> /\ k = 0
         /\ ref = <<>> /\ disp = <<>> /\ val = <<>> /\ hist = <<>>
 
-ChooseParams(nn, p) == /\ stage = "par"
+ChooseParams(nn, p) == /\ stage = "par" /\ Representable(nn, p)
                        /\ n' = nn /\ par' = p /\ stage' = "rows"
                        /\ UNCHANGED <<rows, k, ref, disp, val, hist>>
 ChooseRow(x) == /\ stage = "rows" /\ Len(rows) < n
@@ -162,7 +169,9 @@ EpochRec ==
       lrat == Tup([i \in Idx |-> DSub(disp[i], ru[i])])                     \* log of the probability ratio
       rg   == Tup([i \in Idx |-> Region(lrat[i])])
       rws  == Tup([i \in Idx |-> [ratio |-> Rep(rg[i]), adv |-> Adv(i), ret |-> Ret(i), v |-> val[i], ent |-> rows[i].ent]])
-      e    == A!EvalPPO("ppo", P, rws)                                  \* value / entropy terms and their derivatives
+      \* d loss / d v_i of the value term 1/2 mean (ret - v)^2 and d loss / d entropy_i of the bonus (EpObjective ties both to Actor.tla)
+      gv   == Tup([i \in Idx |-> QNeg(QDiv(QSub(Ret(i), val[i]), I(n)))])
+      ge   == QNeg(QDiv(A!EntCoef, I(n)))
       ds   == Tup([i \in Idx |-> A!DSurr(P, rws[i])])                        \* d surrogate_i / d ratio_i
       \* displacement step of sample i = c_i * ratio_i,  c_i = lr * (d surrogate / d ratio) / N
       c    == Tup([i \in Idx |-> QMul(QDiv(par.lra, I(n)), ds[i][1])])
@@ -176,6 +185,9 @@ EpochRec ==
       act  == Tup([i \in Idx |-> A!Active(P, rws[i])])
       sur  == Tup([i \in Idx |-> IF act[i] = "clipped" THEN A!S2(P, rws[i]) ELSE Adv(i)])
       sexp == Tup([i \in Idx |-> act[i] # "clipped" /\ rg[i] # "one"])
+      \* the objective at theta_k as a linear form  lconst + k * lentk + sum_i lcoef_i * ratio_i
+      polc == QNeg(QDiv(QSum(Tup([i \in Idx |-> IF sexp[i] THEN Zero ELSE sur[i]])), I(n)))
+      lcoef == Tup([i \in Idx |-> IF sexp[i] THEN QNeg(QDiv(sur[i], I(n))) ELSE Zero])
       \* judged against the ENTRY policy: is the sample clipped on the side its advantage favours?
       rgE  == Tup([i \in Idx |-> Region(disp[i])])
       fav  == Tup([i \in Idx |-> A!Favoured(P, [ratio |-> Rep(rgE[i]), adv |-> Adv(i)])])
@@ -183,11 +195,11 @@ EpochRec ==
       refk |-> IF \A i \in Idx : ru[i] = DPt(Zero) THEN "entry" ELSE "moved",
       region |-> rg, regionE |-> rgE, fav |-> fav,
       lrat |-> lrat, c |-> c, expo |-> expo, point |-> \A i \in Idx : ds[i][1] = ds[i][2],
-      sur |-> sur, sexp |-> sexp, lval |-> e.val, lent |-> e.ent,
+      sur |-> sur, sexp |-> sexp, lval |-> A!ValLoss(rws), lent |-> A!EntMean(rws), lconst |-> A!Compose(polc, A!ValLoss(rws), A!EntMean(rws)), lcoef |-> lcoef, gv |-> gv, ge |-> ge,
       before |-> disp, after |-> nd,
       \* critic: v <- v - lr_c * d loss / d v ; entropy table: ent <- ent - lr_a * d loss / d ent
-      v |-> Tup([i \in Idx |-> QSub(val[i], QMul(par.lrc, e.gv[i]))]),
-      entstep |-> QNeg(QMul(par.lra, e.ge))]
+      v |-> Tup([i \in Idx |-> QSub(val[i], QMul(par.lrc, gv[i]))]),
+      entstep |-> EntStep, lentk |-> QNeg(QMul(A!EntCoef, EntStep))]
 Epoch == /\ stage = "epochs" /\ k < par.K
          /\ LET h == EpochRec
             IN /\ hist' = Append(hist, h)
@@ -237,6 +249,12 @@ EpFirstUnclipped == Len(hist) >= 1 =>
                       \A i \in Idx : /\ hist[1].region[i] = "one" /\ ~hist[1].expo[i]
                                      /\ hist[1].c[i] = QDiv(QMul(par.lra, Adv(i)), I(n))
                                      /\ hist[1].after[i] = DPt(QDiv(QMul(par.lra, Adv(i)), I(n)))
+(* the value / entropy derivatives used by Epoch are those of Actor.tla's objective (checked at the entry state, where all numbers are small) *)
+EpObjective == Len(hist) >= 1 =>
+                 LET rws == Tup([i \in Idx |-> Entry(i)])
+                     e   == A!EvalPPO("ppo", P, rws)
+                 IN /\ hist[1].lval = e.val /\ hist[1].lent = e.ent /\ hist[1].ge = e.ge /\ EntStep = QNeg(QMul(par.lra, e.ge)) /\ hist[1].lconst = e.loss
+                    /\ \A i \in Idx : hist[1].gv[i] = e.gv[i] /\ hist[1].c[i] = QNeg(QMul(par.lra, e.g[i][1])) /\ e.g[i][1] = e.g[i][2]
 (* with per-sample parameters a clipped sample stays clipped, and every sample moves only towards the side its advantage favours *)
 EpAbsorbing == \A j \in HIdx : \A i \in Idx :
                  /\ (hist[j].fav[i] /\ j < Len(hist) => hist[j + 1].fav[i])
